@@ -21,6 +21,7 @@
 
 
 #include <xalanc/PlatformSupport/DOMStringHelper.hpp>
+#include <xalanc/PlatformSupport/ExecutionContext.hpp>
 
 
 
@@ -46,7 +47,7 @@ NodeSortKey::NodeSortKey(
     m_descending(descending),
     m_caseOrder(caseOrder),
     m_prefixResolver(&resolver),
-    m_languageString(&langValue)
+    m_languageString(langValue, executionContext.getMemoryManager())
 {
 }
 
@@ -59,7 +60,7 @@ NodeSortKey::NodeSortKey() :
     m_descending(false),
     m_caseOrder(XalanCollationServices::eDefault),
     m_prefixResolver(0),
-    m_languageString(&s_emptyString)
+    m_languageString(s_emptyString, XalanMemMgrs::getDummyMemMgr())
 {
 }
 
@@ -72,7 +73,9 @@ NodeSortKey::NodeSortKey(const NodeSortKey&     theSource) :
     m_descending(theSource.m_descending),
     m_caseOrder(theSource.m_caseOrder),
     m_prefixResolver(theSource.m_prefixResolver),
-    m_languageString(theSource.m_languageString)
+    m_languageString(
+        theSource.m_languageString,
+        const_cast<XalanDOMString&>(theSource.m_languageString).getMemoryManager())
 {
 }
 
